@@ -308,6 +308,7 @@ def simulate(plan):
             else:
                 rec = recs[e[1]]
                 if rec['kind'] == 'lazy_stdin':
+                    del lazy[:]  # a later `stdin =` replaces the earlier one: only the last program is ever started
                     lazy.append(e[1])
                     continue
                 if start(ph, e[1]):
@@ -354,6 +355,7 @@ def expected(plan):
 # ----------------------------------------------------------------------------- execute
 
 def execute(plan, scratch):
+    _behaviours(plan)  # durations and limits are always derived from the layout by the current model
     w = world_mod.World(os.path.join(scratch, 'w'))
     text = render(plan)
     w.write('home/t.case', text)
